@@ -103,10 +103,14 @@ def program (t : Ty) : String :=
 
 /-! ## tuple projection (`Expr::Proj`) -/
 
-/-- `vec_to_ans`: `if vec.len() < idx { Err(IndexOutOfRange) } else { Ok(vec[idx]) }`; the inner `Option` is Rust's bounds
-check on `vec[idx]` (`none` = the index panic) -/
+/-- `vec_to_ans` as it was on the pinned tree: `if vec.len() < idx { Err(IndexOutOfRange) } else { Ok(vec[idx]) }`; the inner
+`Option` is Rust's bounds check on `vec[idx]` (`none` = the index panic) -/
 def projCheck {α : Type} (vec : List α) (idx : Nat) : Except Unit (Option α) :=
   if vec.length < idx then .error () else .ok vec[idx]?
+
+/-- the range check since /repo 29dd9f5: `if vec.len() <= idx { Err(IndexOutOfRange) } else { Ok(vec[idx]) }` -/
+def projCheckLe {α : Type} (vec : List α) (idx : Nat) : Except Unit (Option α) :=
+  if vec.length ≤ idx then .error () else .ok vec[idx]?
 
 /-! ## stage counter -/
 
